@@ -30,6 +30,11 @@ CHECKS = {
    technique="TLA+ vocabulary model (TypeVocab.tla): TLC checks reflexivity/symmetry/exact families and emits every pair and literal with its expectation; all emitted cases replayed on type.go / json.Guess",
    text="TypeVocab.tla states the documented families; TLC checks Reflexive, Symmetric, UndefinedUnrelated, ExactlyFamilies over all 17x17 pairs and emits each pair with SoftEq, every accepted number literal up to length 5/7 with its kind, and the vocabulary tables. The harness replays all of them: IsEqualSoft, IsValidType (names and near misses), IsScalar, token-type agreement of schema and JSON types, GuessSchemaType 60x per literal against the scanner's classifier.",
    note="The 'comment' type is outside the domain. Known finding: null~array one-directional (pinned by the repository's table-derived test)."),
+ "C17": dict(
+   category="model_checking", design_ref="DESIGN.md §3 C17",
+   technique="TLA+ token-level reference (EnumRule.tla), TLC graph dump, token paths printed to text and replayed on rules/enum and on schemas using the rule by name vs inline",
+   text="EnumRule.tla defines acceptance (bracketed list of distinct non-exponent scalars, annotations where the repository's tests place them), the value list and the duplicate relation over a 12-scalar catalogue (\"1\" vs 1, \"a\" vs \"\\u0061\", 1.0 vs 1, -0, 1e2 ...). TLC checks that an accepted prefix never holds duplicates and dumps the 13.6k-state graph; the harness replays the access sequence of every state followed by every token sequence <= k and seeded random walks (Check, Values with kinds), and for every distinct accepted item list compares `v // {enum: @rule}` with `v // {enum: [list]}` (verdict, error code, example) and with membership for every catalogue value.",
+   note="Annotation placements outside those shown by the repository's tests, the empty list and merged number tokens have no verdict (counted inconclusive). Comment-only entries of Values() are ignored."),
 }
 
 REASON_PENDING = "check not built yet in this round (design in DESIGN.md §3); no claim is made"
